@@ -871,7 +871,7 @@ func checkScenario(s Scenario) error {
 	classes, err := runScenario(s)
 	nontrivial := false
 	for _, c := range classes {
-		if c == "sd-while-handler-running" || c == "sd-while-conn-unread" || strings.HasPrefix(c, "misuse=") || c == "fatal:serve-loop-ended-before-shutdown-call" {
+		if c == "sd-while-handler-running" || c == "sd-while-conn-unread" || c == "sd-while-reader-busy-with-request" || strings.HasPrefix(c, "misuse=") || c == "fatal:serve-loop-ended-before-shutdown-call" {
 			nontrivial = true
 		}
 	}
@@ -2235,6 +2235,16 @@ func (r *run) classes() []string {
 	}
 	if len(unread) > 0 {
 		cl = append(cl, "sd-while-conn-unread")
+	}
+	// Shutdown was called while a Reader had read a request and had not yet returned it to the serve loop
+	lastRet := -1
+	for i, n := range names {
+		if strings.HasPrefix(n, "reader.return(") && strings.HasSuffix(n, ",ok)") {
+			lastRet = i
+		} else if strings.HasPrefix(n, "reader.handover(") && lastRet >= 0 && lastRet < call && call < i {
+			cl = append(cl, "sd-while-reader-busy-with-request")
+			break
+		}
 	}
 	trig := s.Trigger
 	if i := strings.Index(trig, "("); i > 0 {
